@@ -222,14 +222,14 @@ func conclude(c *vf.Ctx, w *world) {
 		expires := r.Z != ""
 		switch {
 		case expires && r.PresentData > 0 && r.AbsentData > 0:
-			c.Nontrivial(fmt.Sprintf("%s|d=%d|%s|%s|%v", sc.Spec.Kind, sc.Spec.Delta, sc.Spec.P1Class, sc.Spec.AlterTo, sc.Spec.Coin))
+			c.Nontrivial(caseKey(sc.Spec))
 			c.Distinct("judged-both-sides-of-expiry", sc.Spec.Kind)
 		case !expires && r.PresentData > 0 && r.KeptThroughCycles >= 3:
-			c.Nontrivial(fmt.Sprintf("%s|d=%d|%s|%s|%v", sc.Spec.Kind, sc.Spec.Delta, sc.Spec.P1Class, sc.Spec.AlterTo, sc.Spec.Coin))
+			c.Nontrivial(caseKey(sc.Spec))
 			c.Distinct("kept-through-cycles", sc.Spec.Kind)
 		case expires && sc.Spec.Lazy && r.AbsentData > 0:
 			// lazy scenarios stay silent before expiry by design (a query would load the shard)
-			c.Nontrivial(fmt.Sprintf("%s|d=%d|%s", sc.Spec.Kind, sc.Spec.Delta, sc.Spec.P1Class))
+			c.Nontrivial(caseKey(sc.Spec))
 			c.Distinct("judged-absent-after-silent-expiry", sc.Spec.Kind)
 		default:
 			c.Inconclusive("scenario-obligations-not-judged:"+sc.Spec.Kind, 1)
@@ -341,4 +341,21 @@ func reportDeath(c *vf.Ctx, w *world) {
 	wit := map[string]any{"server": w.name, "report": head, "world_specs": specs}
 	c.Violation("server-crash/"+first+"/"+frame,
 		"ts-server died with a Go panic while the retention service was deleting shards and the scenarios were writing and querying", wit)
+}
+
+// caseKey names what makes a scenario a distinct case: its kind and only those
+// parameters that change what the kind exercises.
+func caseKey(sp spec) string {
+	k := sp.Kind + "|" + sp.P1Class
+	switch sp.Kind {
+	case "expire", "expire-later", "writer":
+		k += fmt.Sprintf("|d=%d", sp.Delta)
+	case "lowered", "unlimited":
+		k += fmt.Sprintf("|variant=%v", sp.Coin)
+	case "raise-before", "raise-after", "lazy-raise":
+		k += "|to=" + sp.AlterTo
+	case "storm":
+		k = "storm"
+	}
+	return k
 }
